@@ -9,6 +9,8 @@ import (
 	"math/big"
 	"os"
 	"path/filepath"
+	"runtime"
+	"runtime/debug"
 	"strings"
 
 	"github.com/tsawler/tabula/reader"
@@ -116,9 +118,21 @@ func gridOps(c *hx.Ctx) {
 	for i := 0; i < c.N(12, 60); i++ {
 		cases = append(cases, [2]int{r.Range(1, 3000000), r.Range(0, 18000)})
 	}
+	// the refused side of the single-element allowance (8 Mi + 16 cells)
+	cases = append(cases, [2]int{1048579, 7}, [2]int{1, 8388624}, [2]int{2, 4194312})
 	for _, rc := range cases {
-		if prod := new(big.Int).Mul(big.NewInt(int64(rc[0])), big.NewInt(int64(rc[1]+1))); prod.Cmp(big.NewInt(8<<20)) <= 0 && prod.Cmp(big.NewInt(3<<20)) > 0 {
-			continue // accepted but hundreds of MiB: not worth allocating in a test
+		// A grid the reader accepts is allocated: 8 Mi cells are about 900 MiB. Several of them in a
+		// row brought the heap of the harness (garbage not yet collected counts) close to the
+		// 3 GiB abort limit of hx.Guard, which made the verdict depend on GC timing: the
+		// accepted side above 256 Ki cells runs in the thorough tier only, one grid at a time.
+		heavy := false
+		if prod := new(big.Int).Mul(big.NewInt(int64(rc[0])), big.NewInt(int64(rc[1]+1))); prod.Cmp(big.NewInt(8<<20+16)) <= 0 && prod.Cmp(big.NewInt(256<<10)) > 0 {
+			if !c.Thorough() || prod.Cmp(big.NewInt(8<<20)) <= 0 && prod.Cmp(big.NewInt(3<<20)) > 0 {
+				continue
+			}
+			heavy = true
+			runtime.GC()
+			debug.FreeOSMemory()
 		}
 		v := "x"
 		wb := writers.XWorkbook{Sheets: []writers.XSheet{{Name: "S", Path: "worksheets/sheet1.xml", RID: "rId1",
@@ -136,6 +150,10 @@ func gridOps(c *hx.Ctx) {
 			}
 		})
 		os.Remove(path)
+		if heavy {
+			runtime.GC()
+			debug.FreeOSMemory()
+		}
 		c.Op(fmt.Sprintf("c02.grid %d %d", rc[0], rc[1]), out)
 		c.Count("op-grid-" + out)
 		c.Case(fmt.Sprint("grid", rc), out == "ok")
